@@ -1,5 +1,6 @@
 from __future__ import annotations
 
+import logging
 from typing import TYPE_CHECKING, Dict, Optional, Tuple, Type, Union, cast
 
 from indi import message
@@ -11,6 +12,9 @@ if TYPE_CHECKING:
     from indi.device.properties.definition.vectors import Vector as VectorDefinition
     from indi.device.properties.instance.elements import Switch
     from indi.device.properties.instance.group import Group
+
+
+logger = logging.getLogger(__name__)
 
 
 class Vector:
@@ -119,8 +123,33 @@ class Vector:
         )
 
     def from_new_message(self, msg: message.NewVector):
+        new_message_class = getattr(self, "new_message_class", None)
+        if new_message_class is None or not isinstance(msg, new_message_class):
+            logger.warning(
+                "Vector %s: %s does not apply to this kind of property, ignored",
+                self.name,
+                msg.__class__.__name__,
+            )
+            return
+
         for child in msg.children:
-            self._elements_by_name[child.name].set_value_from_message(child)
+            element = self._elements_by_name.get(child.name)
+            if element is None:
+                logger.warning(
+                    "Vector %s: new value for unknown element %s ignored",
+                    self.name,
+                    child.name,
+                )
+                continue
+            try:
+                element.set_value_from_message(child)
+            except (ValueError, TypeError, AssertionError):
+                logger.warning(
+                    "Vector %s: unusable new value for element %s ignored",
+                    self.name,
+                    child.name,
+                    exc_info=True,
+                )
 
 
 class NumberVector(Vector):
